@@ -42,6 +42,9 @@ EXTRA = [   # nested / context-key-bound combinations that the Library kinds do 
     ({"processor": "VUndocOperation"}, "float", "float", set()),
     ({"processor": "slice:VUndocOperation:FloatDataCollection"}, "coll", "coll", set()),
     ({"processor": "slice:VUndocProbe:FloatDataCollection", "context_key": "u"}, "coll", "coll", {"u"}),
+    # a swept probe whose context key is the very key its sweep publishes
+    ({"processor": "VPairProbe", "context_key": "t_values", "derive": {"parameter_sweep": {"parameters": {"a": "t"}, "variables": {"t": {"values": [1.0, 2.0]}}}}},
+     "float", "float", {"t_values"}),
     ({"processor": "VUndocSource", "derive": {"parameter_sweep": {"parameters": {"a": "t"}, "variables": {"t": {"values": [1.0]}}, "collection": "FloatDataCollection"}}},
      "none", "coll", {"t_values"}),
 ]
@@ -54,12 +57,14 @@ def real_type(name: str):
     return {"none": NoDataType, "float": FloatDataType, "coll": FloatDataCollection}.get(name)
 
 
-def examine(node_cfg: Dict[str, Any], exp_in: str, exp_out: str, exp_created, exp_suppressed=None) -> List[tuple]:
+def examine(node_cfg: Dict[str, Any], exp_in: str, exp_out: str, exp_created, exp_suppressed=None, keep=None) -> List[tuple]:
     from semantiva.contracts.expectations import validate_component
     from semantiva.pipeline.nodes._pipeline_node_factory import _pipeline_node_factory
 
     bad: List[tuple] = []
     node = _pipeline_node_factory(dict(node_cfg))
+    if keep is not None:
+        keep.append((node, node_cfg))      # the node stays in use while later classes are generated
     for cls, what in ((type(node), "node class"), (type(node.processor), "processor class")):
         errs = [d for d in validate_component(cls) if d.severity == "error"]
         for d in errs:
@@ -94,14 +99,25 @@ def chunk(jobs: List[Dict[str, Any]]):
     rng = random.Random(len(jobs))
     jobs = list(jobs) + list(jobs)        # every configuration is generated at least twice per process
     rng.shuffle(jobs)
+    kept: List[tuple] = []
     for j in jobs:
         out["n"] += 1
         try:
-            bad = examine(j["cfg"], j["in"], j["out"], j["created"], j.get("suppressed"))
+            bad = examine(j["cfg"], j["in"], j["out"], j["created"], j.get("suppressed"), keep=kept)
         except Exception as exc:
             bad = [("factory-raises", f"node factory raised {type(exc).__name__}: {exc} for {j['cfg']}")]
         for k, m in bad:
             out["viol"].append((k + ":" + j["name"], m, {"cfg": j["cfg"]}))
+    # every class generated above is still in use: it must satisfy the catalogue NOW as well, after all the
+    # later (often same-named) classes were generated and registered
+    from semantiva.contracts.expectations import validate_component
+    for node, cfg in kept:
+        for cls, what in ((type(node), "node class"), (type(node.processor), "processor class")):
+            for d in validate_component(cls):
+                if d.severity == "error":
+                    out["viol"].append((f"contract-after-later-generations:{d.code}:{what}",
+                                        f"{what} {cls.__name__} generated for {cfg} no longer passes after later classes were generated: {d.code} {d.message[:160]}",
+                                        {"cfg": cfg}))
     return out
 
 
